@@ -17,10 +17,11 @@ git checkout -q --detach $(git -C /repo rev-parse HEAD) 2>/dev/null
 pkg=$(python3 -c "import json;print(json.load(open('$out/meta.json')).get('demo_package_dir','.'))")
 [ -z "$pkg" ] && pkg=.
 pkg=${pkg#./}
+raceflag=""; grep -q -- "-race" $out/meta.json && raceflag="-race"
 demo() {
   for f in $out/*.go; do cp $f $wt/$pkg/zzseed_$(basename $f); done
   SB=$(mktemp -d /var/tmp/seeddemo.XXXXXX); mkdir -p $SB/home $SB/tmp
-  HOME=$SB/home TMPDIR=$SB/tmp timeout 600 unshare -n bash -c "ip link set lo up; cd $wt && go test -vet=off -count=1 -timeout 300s -run '^TestDemo' ./$pkg" > $out/demo_$1.log 2>&1
+  HOME=$SB/home TMPDIR=$SB/tmp timeout 600 unshare -n bash -c "ip link set lo up; cd $wt && go test $raceflag -vet=off -count=1 -timeout 300s -run '^TestDemo' ./$pkg" > $out/demo_$1.log 2>&1
   rc=$?
   rm -rf $SB; rm -f $wt/$pkg/zzseed_*
   [ $rc -eq 0 ] && echo pass || echo fail
